@@ -12,7 +12,7 @@ import collections
 
 from simkit import bootstrap
 from simkit.choice import rng_for, Log, pick, weighted
-from simkit import model
+from simkit import model, simtime
 from simkit.shrink import shrink_list_at, replace_at
 from . import BaseEngine, Violation
 
@@ -32,7 +32,7 @@ TYPE_MIXES = (
     ('rt_heavy', model.RT_TYPES + ('note_on', 'sysex')),
     ('non_rt', model.NON_RT_TYPES),
 )
-HOWS = ('list', 'bytes', 'bytearray', 'gen', 'tuple', 'byte')
+HOWS = ('list', 'bytes', 'bytearray', 'gen', 'tuple', 'byte', 'gen_fail')
 PREFIX_CLASSES = ('empty', 'noise', 'cut_msg', 'midstream', 'stray_status', 'open_sysex', 'world')
 ABS_STATES = ('idle', 'ch3a2', 'ch3a1', 'ch2a1', 'f13a1', 'f2a2', 'f2a1', 'sysex')
 BYTE_CLASSES = ('data', 'chan', 'F0', 'F1F3', 'F2', 'F6', 'F7', 'F4F5', 'rt', 'rtundef')
@@ -198,6 +198,19 @@ class _DevIn(mports.BaseInput):
             return self._parser.get_message()
 
 
+class SourceFailed(Exception):
+    """Raised by the harness's own lazy byte source part-way through a chunk (a device read error)."""
+
+
+def _failing_source(data, state):
+    for i, b in enumerate(data):
+        if i == state['fail_at']:
+            state['consumed'] = i
+            raise SourceFailed()
+        yield b
+    state['consumed'] = len(data)
+
+
 def _as(how, data):
     if how == 'bytes':
         return bytes(data)
@@ -233,6 +246,17 @@ class Receiver:
             if how == 'byte':
                 for b in data:
                     self.obj.feed_byte(b)
+            elif how == 'gen_fail' and len(data) > 1:
+                # the lazy source fails after some bytes of the chunk; the rest is delivered by the next call
+                st = {'fail_at': len(data) // 2 + (len(data) % 3 == 0), 'consumed': 0}
+                try:
+                    self.obj.feed(_failing_source(data, st))
+                except SourceFailed:
+                    pass
+                self.source_failures = getattr(self, 'source_failures', 0) + 1
+                rest = data[st['consumed']:]
+                if rest:
+                    self.obj.feed(list(rest))
             else:
                 self.obj.feed(_as(how, data))
         elif m == 'pq':
@@ -408,7 +432,14 @@ class WireEngine(BaseEngine):
             plan['mode'] = 'twin_threads'
             plan['cfg'] = cfg
             return plan
-        if idx % 1500 == 11:
+        if idx % 150000 == 77:
+            # a single sysex of more than a mebibyte, with a real-time byte inside and messages around it
+            n = (1 << 20) + rng.randint(1, 50)
+            wire = [0x90, 1, 2, 0xF0] + [i & 0x7F for i in range(n // 2)] + [0xF8] + \
+                   [i & 0x7F for i in range(n - n // 2)] + [0xF7, 0x80, 3, 4]
+            cfg = {'kind': 'bulk', 'bytes': len(wire), 'giant_sysex': True}
+            fired = collections.Counter({'giant_sysex': 1})
+        elif idx % 1500 == 11:
             # bulk: thousands of short messages in one stream (queue and buffer limits)
             n = rng.randint(4200, 9000) if rng.random() < 0.85 else rng.randint(66000, 70000)
             alpha = (0xF8, 0xFA, 0xFE, 0xF6, 0xF8, 0xF8)
@@ -446,6 +477,9 @@ class WireEngine(BaseEngine):
             if rng.random() < 0.25:
                 for _ in range(rng.randint(1, 3)):
                     extra.append(['bg', pick(rng, BG_KINDS)])
+            if rng.random() < 0.3:
+                for _ in range(rng.randint(1, 4)):
+                    extra.append(['delay', pick(rng, (0.001, 0.4, 2.5, 60.0, 86400.0))])
             if extra:
                 # interleave, keeping the relative order of both lists
                 merged = []
@@ -484,6 +518,13 @@ class WireEngine(BaseEngine):
         return cls, list(p)[:24]
 
     def _gen_c06(self, rng, idx=0):
+        if idx % 200000 == 13:
+            return {'prop': 'C06', 'prefix_class': 'empty', 'prefix': [], 'msgs': [
+                {'type': 'note_on', 'channel': 1, 'note': 2, 'velocity': 3},
+                {'type': 'sysex', 'data': [i & 0x7F for i in range((1 << 20) + rng.randint(1, 50))]},
+                {'type': 'note_off', 'channel': 1, 'note': 2, 'velocity': 3}], 'rt': [[1, 500000, 0xF8]],
+                'chunks_p': [], 'chunks_full': [] if rng.random() < 0.5 else [65536] * 20,
+                'how': pick(rng, ('list', 'bytes')), 'mutate': False, 'bg': [], 'giant': True}
         if idx % 10000 == 13:
             # a very long concatenation of encoded messages still parses back to the same list
             if rng.random() < 0.5:
@@ -517,7 +558,8 @@ class WireEngine(BaseEngine):
                 'chunks_full': gen_chunks(rng, total),
                 'how': pick(rng, HOWS + ('parse_all',)),
                 'mutate': rng.random() < 0.3,
-                'bg': [pick(rng, BG_KINDS) for _ in range(rng.randint(1, 4))] if rng.random() < 0.3 else []}
+                'bg': [pick(rng, BG_KINDS) for _ in range(rng.randint(1, 4))] if rng.random() < 0.3 else [],
+                'delays': [pick(rng, (0.0, 0.001, 0.4, 2.5, 3600.0)) for _ in range(3)] if rng.random() < 0.3 else []}
 
     # ---------------- execution
     def run(self, prop, plan, keep_log=False):
@@ -532,6 +574,8 @@ class WireEngine(BaseEngine):
         stats = collections.Counter()
         cov = set()
         viol = None
+        self._vclock = simtime.VClock(plan.get('t0', 1000.0))
+        simtime.activate(self._vclock.read, self._vclock.sleep)
         try:
             if prop == 'C06':
                 self._run_c06(plan, log, stats, cov)
@@ -540,6 +584,10 @@ class WireEngine(BaseEngine):
         except Violation as v:
             viol = {'sig': v.sig, 'msg': v.msg}
             log.ev('VIOLATION', v.sig)
+        finally:
+            if simtime.reads():
+                stats['clock_reads_by_code_under_test'] += simtime.reads()
+            simtime.deactivate()
         for k, v in plan.get('faults_fired', {}).items():
             stats['fault:' + k] += v
         nontrivial = stats.pop('_nontrivial', 0) > 0
@@ -631,7 +679,11 @@ class WireEngine(BaseEngine):
             for op in plan['ops'] + [['feed', 'list', n], ['drain']]:
                 kind = op[0]
                 stats['steps'] += 1
-                if kind == 'bg':
+                if kind == 'delay':
+                    self._vclock.now += op[1]        # the transport is slow: virtual time passes between deliveries
+                    stats['fault:delivery_delay'] += 1
+                    log.ev('delay', op[1])
+                elif kind == 'bg':
                     background(op[1], wire, stats)
                     log.ev('bg', op[1])
                 elif kind == 'twin_feed':
@@ -808,21 +860,34 @@ class WireEngine(BaseEngine):
                 stats['probe:undefined_status_mid_message'] += 1
             prev = b
 
-    def _parse_chunked(self, where, data, chunks, how):
-        """Parse `data` with a fresh real parser, cut as `chunks` says."""
+    def _parse_chunked(self, where, data, chunks, how, delays=()):
+        """Parse `data` with a fresh real parser, cut as `chunks` says (virtual time may pass between cuts)."""
         if how == 'parse_all':
             return self._call(f'{where}:parse_all', mido.parse_all, list(data))
         p = Parser()
         pos = 0
         out = []
-        for s in list(chunks) + [len(data)]:
+        for ci, s in enumerate(list(chunks) + [len(data)]):
             part = data[pos:pos + s]
             if not part:
                 continue
+            if delays and pos:
+                self._vclock.now += delays[ci % len(delays)]
             pos += len(part)
             if how == 'byte':
                 for b in part:
                     self._call(f'{where}:feed_byte', p.feed_byte, b)
+            elif how == 'gen_fail' and len(part) > 1:
+                st = {'fail_at': len(part) // 2, 'consumed': 0}
+                try:
+                    p.feed(_failing_source(part, st))
+                except SourceFailed:
+                    pass
+                except Exception as e:
+                    raise Violation(f'raised:{type(e).__name__}@{where}:feed', f'{where}: feed raised {e!r}')
+                rest = part[st['consumed']:]
+                if rest:
+                    self._call(f'{where}:feed', p.feed, list(rest))
             else:
                 self._call(f'{where}:feed', p.feed, _as(how, part))
             if len(out) % 2:
@@ -878,7 +943,7 @@ class WireEngine(BaseEngine):
             stats['fault:consumer_mutates_message'] += 1
         for k in plan.get('bg', [])[2:]:
             background(k, stream, stats)
-        b = [snap(m) for m in self._parse_chunked('full', stream, plan['chunks_full'], how)]
+        b = [snap(m) for m in self._parse_chunked('full', stream, plan['chunks_full'], how, plan.get('delays', ()))]
         log.ev('full', len(stream), len(b), [repr(x) for x in b[:50]])
         stats['steps'] += 2
         expected = a + expected_tail
@@ -889,7 +954,8 @@ class WireEngine(BaseEngine):
             kinds = 'rt-in-sysex' if by_msg else ('clean-concat' if not prefix else 'prefix')
             raise Violation(f'resync:{kinds}',
                             f'parse(P)={a!r}; parse(P+enc(M..)) gave {b!r}, expected {expected!r} '
-                            f'(P={bytes(prefix).hex(" ")}, stream={bytes(stream).hex(" ")})')
+                            f'(P={bytes(prefix[:200]).hex(" ")}, stream={bytes(stream[:400]).hex(" ")}'
+                            f'{"..." if len(stream) > 400 else ""})'[:6000])
         # probes (reach), measured on the abstract state at the end of the prefix
         tok = model.AbstractTok()
         for x in prefix:
@@ -911,6 +977,9 @@ class WireEngine(BaseEngine):
         from .ports_conc import ENGINE as PC
         PC.abort_cleanup()
 
+    def wants_isolation(self, plan):
+        return plan.get('mode') == 'twin_threads'
+
     # ---------------- shrinking
     def shrink(self, prop, plan):
         if plan.get('mode') in ('pq_threads', 'twin_threads'):
@@ -929,6 +998,8 @@ class WireEngine(BaseEngine):
             yield from shrink_list_at(plan, ('prefix',))
             if plan.get('bg'):
                 yield from shrink_list_at(plan, ('bg',))
+            if plan.get('delays'):
+                yield replace_at(plan, ('delays',), [])
             if plan.get('mutate'):
                 yield replace_at(plan, ('mutate',), False)
             if plan['chunks_full']:
